@@ -89,6 +89,20 @@ func (r *mxRunner) reqrel(a map[string]string) string {
 	head := fmt.Sprintf("reqrel msn=%d part=%s ", msn, partS)
 	abs := map[string]string{"msn": strconv.Itoa(msn), "part": partS}
 	w := r.doMayBlock(r.streamID(si)+"_stream.m3u8?"+q, 15*time.Millisecond)
+	outcome := "wait"
+	if w != nil {
+		outcome = strconv.Itoa(w.Code)
+	}
+	// "an immediate 400 when it cannot be satisfied": more than two past the last complete segment, or expired
+	if cur != nil && outcome != "400" {
+		last := next - 1
+		if msn > last+2 {
+			r.orc.failf("C06 stream %d: request msn=%d is more than two past the last complete segment %d but is answered %s, expected 400", si, msn, last, outcome)
+		}
+		if msn <= cur.mediaSeq {
+			r.orc.failf("C06 stream %d: request msn=%d is expired (oldest listed %d) but is answered %s, expected 400", si, msn, cur.mediaSeq, outcome)
+		}
+	}
 	if w == nil {
 		r.orc.noteReq(si, abs, "wait", nil)
 		return head + "wait"
@@ -103,6 +117,7 @@ func (r *mxRunner) reqrel(a map[string]string) string {
 		return head + "200 unparsable"
 	}
 	r.hadPl[si] = true
+	qs := r.orc.checkQueries(si, a["q"], p)
 	r.orc.noteReq(si, abs, "200", p)
 	// delta flag as requested
 	wantDelta := a["skip"] == "YES" || a["skip"] == "v2"
@@ -116,7 +131,7 @@ func (r *mxRunner) reqrel(a map[string]string) string {
 			r.orc.checkDelta(si, full, p)
 		}
 	}
-	return head + "200 " + r.fmtPlaylist(p) + " q=" + r.orc.checkQueries(si, a["q"], p)
+	return head + "200 " + r.fmtPlaylist(p) + " q=" + qs
 }
 
 func mxAllURIs(p *m3uMedia) []string {
